@@ -80,9 +80,18 @@ type Config struct {
 	// RequestTimeout is timeout duration for all synchronous requests over SecureChannel.
 	// If the Server doesn't respond within RequestTimeout time, Client returns StatusBadTimeout
 	RequestTimeout time.Duration
+
+	// ValidateSecurity is used by server channels only. If set, it is called
+	// with the security policy and mode of every OpenSecureChannel request
+	// and a non-nil error refuses the request.
+	ValidateSecurity SecurityValidator
 }
 
 // SessionConfig is a set of common configurations used in Session.
+// SecurityValidator decides whether a server channel accepts the security
+// policy and mode of an OpenSecureChannel request.
+type SecurityValidator func(policyURI string, mode ua.MessageSecurityMode) error
+
 type SessionConfig struct {
 	// AuthenticationToken is the secret Session identifier used to verify that the request is
 	// associated with the Session. The SessionAuthenticationToken type is defined in 7.31.
